@@ -198,14 +198,18 @@ var profiles = map[string]profile{
 			g := baseGen(r, k)
 			if k%2 == 0 {
 				g.Weights = [][]int{{1, 1}, {1, 1, 1, 1}, {2, 2}, {2, 2, 2, 2}, {1, 1, 1, 1, 1, 1}, {2, 2, 1, 1}, {3, 3, 3, 3, 3, 3}}[(k/2)%7]
-				g.MaxParents = len(g.Weights)/2 + 1 + r.Intn(2)
+				g.MaxParents = len(g.Weights)
 				g.Partition = false
-				g.Rounds = true
-				g.ViewP = 0.45 + 0.4*r.Float64()
-				g.Lag = 0.15
-				g.OldParent = 0.05
+				if k%4 == 0 {
+					g.MaxParents = len(g.Weights)/2 + 1 + r.Intn(2)
+					g.Rounds = true
+					g.ViewP = 0.45 + 0.4*r.Float64()
+					g.OldParent = 0.05
+				}
 			}
-			g.Lag = 0.4
+			if !g.Rounds {
+				g.Lag = 0.4
+			}
 			return g
 		},
 		plays: func(r *rand.Rand, k int) []PlayOpts { return []PlayOpts{{Order: orders[k%3]}} },
